@@ -282,7 +282,7 @@ Lemma insert_interest_spec : forall s n cbp mbf nonce face, p_inv s -> no_dead (
   let s' := fst (fst r) in let id := snd (fst r) in
   p_inv s' /\ no_dead (nodes s') /\ heap s' = heap s /\ now s' = now s /\ dnl s' = dnl s /\ dnlq s' = dnlq s /\
   dnl_life s' = dnl_life s /\ timer_at s' = timer_at s /\
-  (exists e, get_entry (nodes s') n id = Some e) /\
+  (exists e, get_entry (nodes s') n id = Some e /\ p_cbp e = cbp /\ p_mbf e = mbf) /\
   ((In id (ids (E s)) /\ (snd r = true -> E s' = E s) /\ (snd r = false -> E s' = map (touch n id (fun e => set_exp e 0)) (E s)))
    \/ (~ In id (ids (E s)) /\ snd r = false /\ Permutation (E s') (new_entry id n cbp mbf :: E s))).
 Proof.
@@ -301,21 +301,26 @@ Proof.
   { split; simpl; try assumption; unfold E; simpl; rewrite ?E1; assumption. }
   destruct (find (fun e => Bool.eqb (p_cbp e) cbp && Bool.eqb (p_mbf e) mbf) (n_pit nd)) as [e|] eqn:F.
   - (* an entry exists *)
-    apply find_some in F. destruct F as [F1 _].
+    apply find_some in F. destruct F as [F1 F2]. apply andb_true_iff in F2. destruct F2 as [Fc Fm].
+    apply Bool.eqb_prop in Fc. apply Bool.eqb_prop in Fm.
     assert (Bn : busy l1 n).
     { exists nd. split; [exact G1|]. apply node_idle_false. left. intro Z. rewrite Z in F1. destruct F1. }
     assert (ND1 : no_dead l1) by (eapply no_dead_after_busy; eassumption).
     assert (Hin : In e (ents l1)) by (apply ents_In; exists nd; split; [eapply get_node_In; exact G1|exact F1]).
     assert (Hid : In (p_id e) (ids (E s))) by (unfold E; rewrite <- E1; apply in_map; exact Hin).
     destruct (get_entry_exists l1 n nd e G1 F1) as [e' Ge'].
+    assert (e' = e).
+    { destruct (get_entry_In _ _ _ _ Ge') as [H1 [H2 _]].
+      apply (NoDup_map_eq _ _ p_id (ents l1)); [rewrite E1; exact I|exact H1|exact Hin|exact H2]. }
+    subst e'.
     destruct (existsb _ (p_ins e)); simpl.
     + split; [exact P1|]. split; [exact ND1|]. repeat (split; [reflexivity|]).
-      split; [exists e'; exact Ge'|]. left. split; [exact Hid|]. split; [intros _; unfold E; simpl; exact E1|discriminate].
+      split; [exists e; tauto|]. left. split; [exact Hid|]. split; [intros _; unfold E; simpl; exact E1|discriminate].
     + split.
       { pose proof (touch_pinv (set_nodes s l1) n (p_id e) (fun e0 => set_exp e0 0) P1 (fun _ => eq_refl) (fun _ => eq_refl) (fun _ => eq_refl)) as P2.
         exact P2. }
       split; [apply no_dead_upd_entry; exact ND1|]. repeat (split; [reflexivity|]).
-      split; [rewrite get_entry_upd by (intro; reflexivity); rewrite Ge'; eexists; reflexivity|].
+      split; [rewrite get_entry_upd by (intro; reflexivity); rewrite Ge'; eexists; split; [reflexivity|simpl; tauto]|].
       left. split; [exact Hid|]. split; [discriminate|]. intros _. unfold E. simpl. rewrite ents_upd_entry by exact N1. rewrite E1. reflexivity.
   - (* a new entry is created *)
     set (id := next_id s). set (e := mkpit id n cbp mbf [] [] 0 false false).
@@ -358,10 +363,12 @@ Proof.
       - eexists. split; [exact G2|]. apply node_idle_false. left. simpl. intro Z. apply app_eq_nil in Z. destruct Z as [_ Z]. discriminate. }
     repeat (split; [reflexivity|]).
     split.
-    { unfold get_entry. rewrite G2. simpl.
-      destruct (find (fun e0 => N.eqb (p_id e0) id) (n_pit nd ++ [e])) eqn:Ff; [eexists; reflexivity|].
-      exfalso. pose proof (find_none _ _ Ff e) as Hx. simpl in Hx. rewrite N.eqb_refl in Hx.
-      assert (false = true -> False) by discriminate. apply H0. symmetry. apply Hx. apply in_or_app. right. left. reflexivity. }
+    { unfold get_entry. rewrite G2. simpl. exists e. split; [|split; reflexivity].
+      assert (Hno : forall x, In x (n_pit nd) -> N.eqb (p_id x) id = false).
+      { intros x Hx. apply N.eqb_neq. intro Ex. apply Hfresh. rewrite <- Ex. unfold E. rewrite <- E1. apply in_map.
+        apply ents_In. exists nd. split; [eapply get_node_In; exact G1|exact Hx]. }
+      clear - Hno. induction (n_pit nd) as [|x t IHt]; simpl; [rewrite N.eqb_refl; reflexivity|].
+      rewrite (Hno x (or_introl eq_refl)). apply IHt. intros y Hy. apply Hno. right. exact Hy. }
     right. split; [exact Hfresh|]. split; [reflexivity|exact Pm].
 Qed.
 
@@ -753,25 +760,44 @@ Qed.
 Definition rec_bounded (t : Z) (e : pite) : Prop :=
   (forall r, In r (p_ins e) -> i_exp r <= t) /\ (forall o, In o (p_outs e) -> o_exp o <= t).
 
-Definition bounds_ok (s : st) (L : Z) (e : pite) : Prop :=
-  p_exp e <= now s + L /\ rec_bounded (now s + L) e /\ (p_ins e = [] -> p_outs e = [] -> p_exp e <= now s).
+(* the key under which Interests aggregate in the PIT *)
+Definition key : Type := (name * bool * bool)%type.
+Definition key_of (e : pite) : key := (p_name e, p_cbp e, p_mbf e).
+Definition pkey_eqb (a b : key) : bool :=
+  name_eqb (fst (fst a)) (fst (fst b)) && Bool.eqb (snd (fst a)) (snd (fst b)) && Bool.eqb (snd a) (snd b).
 
-(* every PIT entry is in the expiry queue, keyed by its expiration time, which is at most L past now (L = the longest
-   lifetime used in the history); an entry with no records left (satisfied, or answered from the cache) is already due *)
-Definition ok_entry (s : st) (L : Z) (e : pite) : Prop :=
-  p_q e = true /\ In (p_id e, p_exp e) (heap s) /\ bounds_ok s L e.
+(* b = the deadline of the entry's key: the latest (arrival + lifetime) among the Interests received for it *)
+Definition bounds_ok (s : st) (b : Z) (e : pite) : Prop :=
+  p_exp e <= Z.max (now s) b /\ rec_bounded b e /\ (p_ins e = [] -> p_outs e = [] -> p_exp e <= now s).
 
-Record g_inv (s : st) (L : Z) : Prop := mk_g_inv {
+(* every PIT entry is in the expiry queue, keyed by its expiration time, which is at most the deadline of its key (or now);
+   an entry with no records left (satisfied, or answered from the cache) is already due *)
+Definition ok_entry (s : st) (bd : key -> Z) (e : pite) : Prop :=
+  p_q e = true /\ In (p_id e, p_exp e) (heap s) /\ bounds_ok s (bd (key_of e)) e.
+
+Record g_inv (s : st) (bd : key -> Z) : Prop := mk_g_inv {
   g_p : p_inv s;
   g_nd : no_dead (nodes s);
-  g_ok : forall e, In e (E s) -> ok_entry s L e }.
+  g_ok : forall e, In e (E s) -> ok_entry s bd e }.
 
-Lemma ok_transfer : forall n id s s' F L, upd_rel n id s s' F -> synced n id s s' F -> p_inv s ->
-  (forall e, In e (E s) -> (p_id e <> id \/ p_name e <> n) -> ok_entry s L e) ->
-  (forall e0, In e0 (E s) -> p_id e0 = id -> p_name e0 = n -> bounds_ok s' L (F e0)) ->
-  forall e', In e' (E s') -> ok_entry s' L e'.
+Lemma bounds_mono : forall s b b' e, b <= b' -> bounds_ok s b e -> bounds_ok s b' e.
 Proof.
-  intros n id s s' F L U S P Hoth Hb e' He'. destruct U as [U1 U2 U3 U4 U5 U6 U7 U8].
+  intros s b b' e Hb [B1 [[B2 B2'] B3]]. split; [lia|]. split; [|exact B3].
+  split; intros x Hx; [specialize (B2 x Hx)|specialize (B2' x Hx)]; lia.
+Qed.
+
+Lemma g_inv_weaken : forall s bd bd', (forall e, In e (E s) -> bd (key_of e) <= bd' (key_of e)) -> g_inv s bd -> g_inv s bd'.
+Proof.
+  intros s bd bd' H [P ND OK]. split; [exact P|exact ND|]. intros e He. destruct (OK e He) as [Q1 [Q2 B]].
+  split; [exact Q1|]. split; [exact Q2|]. apply (bounds_mono s (bd (key_of e))); [apply H; exact He|exact B].
+Qed.
+
+Lemma ok_transfer : forall n id s s' F bd, upd_rel n id s s' F -> synced n id s s' F -> p_inv s ->
+  (forall e, In e (E s) -> (p_id e <> id \/ p_name e <> n) -> ok_entry s bd e) ->
+  (forall e0, In e0 (E s) -> p_id e0 = id -> p_name e0 = n -> bounds_ok s' (bd (key_of (F e0))) (F e0)) ->
+  forall e', In e' (E s') -> ok_entry s' bd e'.
+Proof.
+  intros n id s s' F bd U S P Hoth Hb e' He'. destruct U as [U1 U2 U3 U4 U5 U6 U7 U8].
   rewrite U2 in He'. apply in_map_iff in He'. destruct He' as [e0 [E0 H0]]. subst e'. unfold touch.
   destruct (N.eqb (p_id e0) id && name_eqb (p_name e0) n) eqn:C.
   - apply andb_true_iff in C. destruct C as [C1 C2]. apply N.eqb_eq in C1. apply name_eqb_eq in C2.
@@ -788,7 +814,7 @@ Proof.
     + unfold bounds_ok. rewrite U5. split; [exact B1|]. split; [exact B2|exact B3].
 Qed.
 
-Lemma g_inv_same : forall s s' L, g_inv s L -> p_inv s' -> no_dead (nodes s') -> E s' = E s -> heap s' = heap s -> now s' = now s -> g_inv s' L.
+Lemma g_inv_same : forall s s' (L : key -> Z), g_inv s L -> p_inv s' -> no_dead (nodes s') -> E s' = E s -> heap s' = heap s -> now s' = now s -> g_inv s' L.
 Proof.
   intros s s' L [P ND OK] P' ND' HE Hh Hn. split; [exact P'|exact ND'|]. intros e He. rewrite HE in He.
   destruct (OK e He) as [Q1 [Q2 [B1 [B2 B3]]]]. unfold ok_entry, bounds_ok. rewrite Hh, Hn. tauto.
@@ -798,9 +824,9 @@ Qed.
 Definition sat_f (e : pite) : pite := set_sat e true.
 Definition clear_f (e : pite) : pite := set_outs (set_ins e []) [].
 
-Lemma satisfy_ginv : forall dn src s e L, 0 <= L -> g_inv s L -> g_inv (satisfy dn src s e) L.
+Lemma satisfy_ginv : forall dn src s e (L : key -> Z), g_inv s L -> g_inv (satisfy dn src s e) L.
 Proof.
-  intros dn src s e L HL [P ND OK]. unfold satisfy.
+  intros dn src s e L [P ND OK]. unfold satisfy.
   set (n := p_name e). set (id := p_id e).
   destruct (ur_sched s n id (now s) P) as [U1 S1]. fold (set_exp_now s n id) in U1, S1.
   set (s1 := set_exp_now s n id) in *.
@@ -827,10 +853,10 @@ Proof.
   split; [lia|]. split; [split; intros ? []|]. intros _ _. lia.
 Qed.
 
-Lemma fold_satisfy_ginv : forall dn src l s L, 0 <= L -> g_inv s L -> g_inv (fold_left (satisfy dn src) l s) L.
-Proof. intros dn src l. induction l as [|e t IH]; intros s L HL G; simpl; [exact G|]. apply IH; [exact HL|]. apply satisfy_ginv; assumption. Qed.
+Lemma fold_satisfy_ginv : forall dn src l s (L : key -> Z), g_inv s L -> g_inv (fold_left (satisfy dn src) l s) L.
+Proof. intros dn src l. induction l as [|e t IH]; intros s L G; simpl; [exact G|]. apply IH. apply satisfy_ginv; assumption. Qed.
 
-Lemma insert_data_ginv : forall s n w f L, g_inv s L -> g_inv (insert_data s n w f) L.
+Lemma insert_data_ginv : forall s n w f (L : key -> Z), g_inv s L -> g_inv (insert_data s n w f) L.
 Proof.
   intros s n w f L G. pose proof G as [P ND OK]. pose proof (pi_cs s P) as C.
   destruct (insert_data_inv s n w f C) as [C' _].
@@ -838,9 +864,9 @@ Proof.
   apply (g_inv_same s _ L G); [eapply pinv_transfer; eassumption|exact ND'|apply (ps_E _ _ S')|apply (ps_heap _ _ S')|apply (ps_now _ _ S')].
 Qed.
 
-Lemma process_data_ginv : forall s n w f tok L, 0 <= L -> g_inv s L -> g_inv (process_data s n w f tok) L.
+Lemma process_data_ginv : forall s n w f tok (L : key -> Z), g_inv s L -> g_inv (process_data s n w f tok) L.
 Proof.
-  intros s n w f tok L HL G. unfold process_data.
+  intros s n w f tok L G. unfold process_data.
   set (s1 := if admitting s then insert_data s n w f else s).
   assert (G1 : g_inv s1 L) by (unfold s1; destruct (admitting s); [apply insert_data_ginv; exact G|exact G]).
   destruct (pit_matches s1 n tok) as [|e0 rest]; [exact G1|].
@@ -896,7 +922,7 @@ Proof.
 Qed.
 
 (* ---- finishing a sequence of updates of one entry ---- *)
-Definition others_ok (L : Z) (n : name) (id : N) (s : st) : Prop :=
+Definition others_ok (L : key -> Z) (n : name) (id : N) (s : st) : Prop :=
   forall e, In e (E s) -> (p_id e <> id \/ p_name e <> n) -> ok_entry s L e.
 
 Lemma others_step : forall n id a b F L, upd_rel n id a b F -> p_inv a -> others_ok L n id a -> others_ok L n id b.
@@ -922,7 +948,7 @@ Proof.
 Qed.
 
 Lemma finish : forall n id a b F L ea, upd_rel n id a b F -> synced n id a b F -> p_inv a -> no_dead (nodes a) ->
-  others_ok L n id a -> get_entry (nodes a) n id = Some ea -> bounds_ok b L (F ea) -> g_inv b L.
+  others_ok L n id a -> get_entry (nodes a) n id = Some ea -> bounds_ok b (L (key_of (F ea))) (F ea) -> g_inv b L.
 Proof.
   intros n id a b F L ea U S P ND O G B. split; [apply (ur_p _ _ _ _ _ U)|apply (ur_nd _ _ _ _ _ U); exact ND|].
   apply (ok_transfer n id a b F L U S P O). intros e0 H0 H1 H2.
@@ -943,14 +969,14 @@ Lemma update_exp_timer_eq : forall s n id e, get_entry (nodes s) n id = Some e -
 Proof. intros s n id e G. unfold update_exp_timer. rewrite G. reflexivity. Qed.
 
 (* the "forward" tail of processIncomingInterest *)
-Lemma forward_ok : forall s n id nonce ex sent L e,
-  p_inv s -> no_dead (nodes s) -> others_ok L n id s -> get_entry (nodes s) n id = Some e ->
-  rec_bounded (now s + L) e -> p_ins e <> [] -> 0 <= L -> ex <= now s + L ->
+Lemma forward_ok : forall s n id nonce ex sent (bd : key -> Z) e,
+  p_inv s -> no_dead (nodes s) -> others_ok bd n id s -> get_entry (nodes s) n id = Some e ->
+  rec_bounded (bd (key_of e)) e -> p_ins e <> [] -> ex <= bd (key_of e) ->
   g_inv (let s3 := update_exp_timer s n id in
          set_nodes s3 (upd_entry (nodes s3) n id (fun e => set_outs e
-            (fold_left (fun l f => put_outrec l (mkout f nonce ex)) sent (outs_of s3 n id))))) L.
+            (fold_left (fun l f => put_outrec l (mkout f nonce ex)) sent (outs_of s3 n id))))) bd.
 Proof.
-  intros s n id nonce ex sent L e P ND O G [Bi Bo] Hne HL Hex. cbv zeta.
+  intros s n id nonce ex sent bd e P ND O G [Bi Bo] Hne Hex. cbv zeta.
   rewrite (update_exp_timer_eq s n id e G). set (t := tmax (now s) e).
   destruct (ur_sched s n id t P) as [U1 S1]. set (s3 := schedule s n id t) in *.
   pose proof (get_entry_schedule s n id t e G) as G3. fold s3 in G3.
@@ -961,22 +987,25 @@ Proof.
   set (s4 := set_nodes s3 (upd_entry (nodes s3) n id (fun e0 => set_outs e0 outs'))) in *.
   assert (S : synced n id s s4 (fun e0 => (fun e1 => set_outs e1 outs') (sched_f t e0))).
   { apply (synced_then n id s s3 s4 _ _ U1 S1 U2); [reflexivity|intro; split; reflexivity]. }
-  apply (finish n id s s4 _ L e U S P ND O G).
+  apply (finish n id s s4 _ bd e U S P ND O G).
   assert (Hnow : now s4 = now s) by apply (ur_now _ _ _ _ _ U).
+  change (key_of (set_outs (sched_f t e) outs')) with (key_of e). set (B := bd (key_of e)) in *.
   unfold bounds_ok, rec_bounded. rewrite Hnow. simpl. split; [|split; [split|]].
-  - unfold t, tmax. apply max_out_le; [apply max_in_le; [lia|exact Bi]|exact Bo].
+  - unfold t, tmax. apply max_out_le; [apply max_in_le; [lia|]|].
+    + intros r Hr. specialize (Bi r Hr). lia.
+    + intros o Ho'. specialize (Bo o Ho'). lia.
   - exact Bi.
-  - intros o Hin. apply (fold_put_outrec_bound sent nonce ex (p_outs e) (now s + L) Bo Hex o Hin).
+  - intros o Hin. apply (fold_put_outrec_bound sent nonce ex (p_outs e) B Bo Hex o Hin).
   - intro Z. congruence.
 Qed.
 
 (* the cache-hit tail: the requester's in-record is consumed, then the expiration is rescheduled *)
-Lemma hit_ok : forall s n id face L e,
-  p_inv s -> no_dead (nodes s) -> others_ok L n id s -> get_entry (nodes s) n id = Some e ->
-  rec_bounded (now s + L) e -> 0 <= L ->
-  g_inv (update_exp_timer (del_inrec s n id face) n id) L.
+Lemma hit_ok : forall s n id face (bd : key -> Z) e,
+  p_inv s -> no_dead (nodes s) -> others_ok bd n id s -> get_entry (nodes s) n id = Some e ->
+  rec_bounded (bd (key_of e)) e ->
+  g_inv (update_exp_timer (del_inrec s n id face) n id) bd.
 Proof.
-  intros s n id face L e P ND O G [Bi Bo] HL.
+  intros s n id face bd e P ND O G [Bi Bo].
   set (F4 := fun e0 => set_ins e0 (filter (fun r => negb (N.eqb (i_face r) face)) (p_ins e0))).
   pose proof (ur_touch s n id F4 P (fun _ => eq_refl) (fun _ => eq_refl) (fun _ => eq_refl)) as U1.
   fold (del_inrec s n id face) in U1. set (s4 := del_inrec s n id face) in *.
@@ -991,13 +1020,16 @@ Proof.
     assert (HE4 : E s4 = map (touch n id F4) (E s)) by apply (ur_E _ _ _ _ _ U1).
     rewrite HE4. apply in_map_iff. exists e0. split; [|exact H0]. unfold touch.
     rewrite H1, H2, N.eqb_refl, name_eqb_refl. reflexivity. }
-  apply (finish n id s _ _ L e U S P ND O G).
+  apply (finish n id s _ _ bd e U S P ND O G).
   assert (Hnow : now (schedule s4 n id t) = now s) by apply (ur_now _ _ _ _ _ U).
   assert (Hnow4 : now s4 = now s) by apply (ur_now _ _ _ _ _ U1).
-  assert (Bi' : forall r, In r (filter (fun r => negb (N.eqb (i_face r) face)) (p_ins e)) -> i_exp r <= now s + L).
+  change (key_of (sched_f t (F4 e))) with (key_of e). set (B := bd (key_of e)) in *.
+  assert (Bi' : forall r, In r (filter (fun r => negb (N.eqb (i_face r) face)) (p_ins e)) -> i_exp r <= B).
   { intros r Hr. apply filter_In in Hr. apply Bi. tauto. }
   unfold bounds_ok, rec_bounded. rewrite Hnow. simpl. split; [|split; [split|]].
-  - unfold t, tmax. rewrite Hnow4. simpl. apply max_out_le; [apply max_in_le; [lia|exact Bi']|exact Bo].
+  - unfold t, tmax. rewrite Hnow4. simpl. apply max_out_le; [apply max_in_le; [lia|]|].
+    + intros r Hr. specialize (Bi' r Hr). lia.
+    + intros o Ho'. specialize (Bo o Ho'). lia.
   - exact Bi'.
   - exact Bo.
   - intros Z1 Z2. unfold t, tmax. rewrite Hnow4. simpl. rewrite Z1, Z2. simpl. lia.
@@ -1017,19 +1049,41 @@ Proof.
   - intro e. split; reflexivity.
 Qed.
 
-Lemma process_interest_ginv : forall s face n cbp mbf nonce life sent L, 0 <= L -> lifetime_of life <= L -> g_inv s L ->
-  g_inv (fst (fst (process_interest s face n cbp mbf nonce life sent))) L.
+(* the deadline of a key after an Interest for it arrived at time t with lifetime l *)
+Definition bump (bd : key -> Z) (k : key) (t : Z) : key -> Z := fun k' => if pkey_eqb k k' then Z.max (bd k') t else bd k'.
+
+Lemma pkey_eqb_refl : forall k, pkey_eqb k k = true.
+Proof. intros [[a b] c]. unfold pkey_eqb. simpl. rewrite name_eqb_refl. destruct b; destruct c; reflexivity. Qed.
+
+Lemma bump_ge : forall bd k t k', bd k' <= bump bd k t k'.
+Proof. intros. unfold bump. destruct (pkey_eqb k k'); lia. Qed.
+
+Lemma bump_same : forall bd k t, bump bd k t k = Z.max (bd k) t.
+Proof. intros. unfold bump. rewrite pkey_eqb_refl. reflexivity. Qed.
+
+Lemma others_weaken : forall (bd bd' : key -> Z) n id s, (forall k, bd k <= bd' k) -> others_ok bd n id s -> others_ok bd' n id s.
 Proof.
-  intros s face n cbp mbf nonce life sent L HL Hlife G. pose proof G as [P ND OK]. unfold process_interest.
+  intros bd bd' n id s H O e He Hne. destruct (O e He Hne) as [Q1 [Q2 B]]. split; [exact Q1|]. split; [exact Q2|].
+  apply (bounds_mono s (bd (key_of e))); [apply H|exact B].
+Qed.
+
+Lemma process_interest_ginv : forall s face n cbp mbf nonce life sent (bd : key -> Z), g_inv s bd ->
+  g_inv (fst (fst (process_interest s face n cbp mbf nonce life sent))) (bump bd (n, cbp, mbf) (now s + lifetime_of life)).
+Proof.
+  intros s face n cbp mbf nonce life sent bd G0.
+  set (bd' := bump bd (n, cbp, mbf) (now s + lifetime_of life)).
+  assert (Hge : forall k, bd k <= bd' k) by (intro; apply bump_ge).
+  assert (G : g_inv s bd') by (apply (g_inv_weaken s bd bd'); [intros; apply Hge|exact G0]).
+  pose proof G as [P ND OK]. unfold process_interest.
   destruct (dnl_mem (n, nonce) (dnl s)); [exact G|].
   pose proof (insert_interest_spec s n cbp mbf nonce face P ND) as Sp. cbv zeta in Sp.
   destruct (insert_interest s n cbp mbf nonce face) as [[s1 id] dup]. simpl in Sp.
-  destruct Sp as [P1 [ND1 [Hh1 [Hn1 [_ [_ [_ [_ [[e1 G1] Cases]]]]]]]]].
+  destruct Sp as [P1 [ND1 [Hh1 [Hn1 [_ [_ [_ [_ [[e1 [G1 [Kc Km]]] Cases]]]]]]]]].
   destruct dup.
-  { simpl. apply (g_inv_same s s1 L G P1 ND1); [|exact Hh1|exact Hn1].
+  { simpl. apply (g_inv_same s s1 bd' G P1 ND1); [|exact Hh1|exact Hn1].
     destruct Cases as [[_ [Hd _]]|[_ [Hd _]]]; [apply Hd; reflexivity|discriminate]. }
   (* the entries other than (n, id) are as before; the records of (n, id) are bounded *)
-  assert (O1 : others_ok L n id s1).
+  assert (O1 : others_ok bd' n id s1).
   { intros e He Hne. assert (Hold : In e (E s)).
     { destruct Cases as [[_ [_ Hd]]|[_ [_ Pm]]].
       - rewrite (Hd eq_refl) in He. apply in_map_iff in He. destruct He as [x [Ex Hx]]. unfold touch in Ex.
@@ -1039,15 +1093,22 @@ Proof.
       - apply (Permutation_in _ Pm) in He. destruct He as [<-|He]; [|exact He]. simpl in Hne. destruct Hne; congruence. }
     destruct (OK e Hold) as [Q1 [Q2 [B1 [B2 B3]]]]. unfold ok_entry, bounds_ok. rewrite Hh1, Hn1. tauto. }
   destruct (get_entry_match s1 n id e1 P1 G1) as [M1 [M2 M3]].
-  assert (R1 : rec_bounded (now s1 + L) e1).
-  { rewrite Hn1. destruct Cases as [[_ [_ Hd]]|[_ [_ Pm]]].
+  assert (Hk : key_of e1 = (n, cbp, mbf)) by (unfold key_of; rewrite M3, Kc, Km; reflexivity).
+  set (B := bd' (n, cbp, mbf)) in *.
+  assert (HB : now s + lifetime_of life <= B) by (unfold B, bd'; rewrite bump_same; lia).
+  assert (R1 : rec_bounded B e1).
+  { destruct Cases as [[_ [_ Hd]]|[_ [_ Pm]]].
     - rewrite (Hd eq_refl) in M1. apply in_map_iff in M1. destruct M1 as [x [Ex Hx]]. destruct (OK x Hx) as [_ [_ [_ [B2 _]]]].
-      unfold touch in Ex. destruct (_ && _); subst e1; exact B2.
-    - apply (Permutation_in _ Pm) in M1. destruct M1 as [<-|M1]; [split; intros ? []|]. destruct (OK e1 M1) as [_ [_ [_ [B2 _]]]]. exact B2. }
+      assert (Hkx : key_of x = (n, cbp, mbf)).
+      { unfold touch in Ex. destruct (_ && _); subst e1; exact Hk. }
+      rewrite Hkx in B2. unfold touch in Ex. destruct (_ && _); subst e1; exact B2.
+    - apply (Permutation_in _ Pm) in M1. destruct M1 as [<-|M1]; [split; intros ? []|].
+      destruct (OK e1 M1) as [_ [_ [_ [B2 _]]]]. rewrite Hk in B2. exact B2. }
   rewrite G1. set (ex := now s1 + lifetime_of life).
+  assert (HexB : ex <= B) by (unfold ex; rewrite Hn1; exact HB).
   destruct (put_inrec (p_ins e1) (mkin face nonce ex)) as [[ins' already] prev] eqn:Epi.
-  assert (Bins : forall r, In r ins' -> i_exp r <= now s1 + L).
-  { intros r Hr. apply (put_inrec_bound (p_ins e1) (mkin face nonce ex) (now s1 + L)); [apply R1|simpl; unfold ex; lia|rewrite Epi; exact Hr]. }
+  assert (Bins : forall r, In r ins' -> i_exp r <= B).
+  { intros r Hr. apply (put_inrec_bound (p_ins e1) (mkin face nonce ex) B); [apply R1|exact HexB|rewrite Epi; exact Hr]. }
   assert (Nins : ins' <> []) by (pose proof (put_inrec_nonempty (p_ins e1) (mkin face nonce ex)) as Hx; rewrite Epi in Hx; exact Hx).
   set (F2 := fun e => set_ins e ins').
   pose proof (ur_touch s1 n id F2 P1 (fun _ => eq_refl) (fun _ => eq_refl) (fun _ => eq_refl)) as U2.
@@ -1056,26 +1117,24 @@ Proof.
   { unfold s2. simpl. rewrite get_entry_upd by (intro; reflexivity). rewrite G1. reflexivity. }
   assert (P2 : p_inv s2) by apply (ur_p _ _ _ _ _ U2).
   assert (ND2 : no_dead (nodes s2)) by (apply (ur_nd _ _ _ _ _ U2); exact ND1).
-  assert (O2 : others_ok L n id s2) by (apply (others_step n id s1 s2 F2 L U2 P1 O1)).
-  assert (Hn2 : now s2 = now s1) by reflexivity.
-  assert (R2 : rec_bounded (now s2 + L) (F2 e1)) by (rewrite Hn2; split; [exact Bins|apply R1]).
-  assert (Hex : ex <= now s2 + L) by (rewrite Hn2; unfold ex; lia).
+  assert (O2 : others_ok bd' n id s2) by (apply (others_step n id s1 s2 F2 bd' U2 P1 O1)).
+  assert (Hk2 : key_of (F2 e1) = (n, cbp, mbf)) by exact Hk.
+  assert (R2 : rec_bounded (bd' (key_of (F2 e1))) (F2 e1)) by (rewrite Hk2; split; [exact Bins|apply R1]).
+  assert (Hex : ex <= bd' (key_of (F2 e1))) by (rewrite Hk2; exact HexB).
   destruct already.
   { (* retransmission from the same face *)
     pose proof (ur_dnl_insert s2 n id (n, prev) P2) as U3.
     set (s3 := dnl_insert s2 (n, prev)) in *.
     destruct (dnl_insert_fields s2 (n, prev)) as [A1 [_ [A3 _]]]. fold s3 in A1, A3.
-    simpl. apply (forward_ok s3 n id nonce ex sent L (F2 e1)); try assumption.
+    simpl. apply (forward_ok s3 n id nonce ex sent bd' (F2 e1)); try assumption.
     - apply (ur_p _ _ _ _ _ U3).
     - apply (ur_nd _ _ _ _ _ U3); exact ND2.
-    - apply (others_step n id s2 s3 _ L U3 P2 O2).
-    - rewrite A1. exact G2.
-    - rewrite A3. exact R2.
-    - rewrite A3. exact Hex. }
+    - apply (others_step n id s2 s3 _ bd' U3 P2 O2).
+    - rewrite A1. exact G2. }
   assert (Fwd : forall sX, sX = s2 -> g_inv (let s3 := update_exp_timer sX n id in
          set_nodes s3 (upd_entry (nodes s3) n id (fun e => set_outs e
-            (fold_left (fun l f => put_outrec l (mkout f nonce ex)) sent (outs_of s3 n id))))) L).
-  { intros sX ->. apply (forward_ok s2 n id nonce ex sent L (F2 e1)); assumption. }
+            (fold_left (fun l f => put_outrec l (mkout f nonce ex)) sent (outs_of s3 n id))))) bd').
+  { intros sX ->. apply (forward_ok s2 n id nonce ex sent bd' (F2 e1)); assumption. }
   destruct (serving s2).
   2:{ simpl. apply Fwd. reflexivity. }
   pose proof (ur_find_cs s2 n id n cbp mbf P2) as U3.
@@ -1083,13 +1142,12 @@ Proof.
   destruct (find_cs s2 n cbp mbf) as [s3 c]. simpl in U3, Hnil, Hnodes, Hsame.
   destruct c as [|c0 c].
   - rewrite (Hnil eq_refl). simpl. apply Fwd. reflexivity.
-  - simpl. apply (hit_ok s3 n id face L (F2 e1)).
+  - simpl. apply (hit_ok s3 n id face bd' (F2 e1)).
     + apply (ur_p _ _ _ _ _ U3).
     + apply (ur_nd _ _ _ _ _ U3). exact ND2.
-    + apply (others_step n id s2 s3 _ L U3 P2 O2).
+    + apply (others_step n id s2 s3 _ bd' U3 P2 O2).
     + rewrite Hnodes. exact G2.
-    + rewrite (ps_now _ _ Hsame). exact R2.
-    + exact HL.
+    + exact R2.
 Qed.
 
 (* ---- PitCsTree.Update: the reaper ---- *)
@@ -1249,8 +1307,12 @@ Proof.
 Qed.
 
 (* ---- every operation, every history ---- *)
-Definition life_ok (L : Z) (o : op) : Prop :=
-  match o with OInterest _ _ _ _ _ life _ => lifetime_of life <= L | _ => True end.
+(* deadlines: an Interest raises the deadline of its key to arrival + lifetime *)
+Definition bd_step (s : st) (bd : key -> Z) (o : op) : key -> Z :=
+  match o with
+  | OInterest _ n cbp mbf _ life _ => bump bd (n, cbp, mbf) (now s + lifetime_of life)
+  | _ => bd
+  end.
 
 Lemma dnl_sweep_fields : forall s, nodes (dnl_sweep s) = nodes s /\ heap (dnl_sweep s) = heap s /\ now (dnl_sweep s) = now s /\
   tokmap (dnl_sweep s) = tokmap s /\ npit (dnl_sweep s) = npit s /\ next_id (dnl_sweep s) = next_id s /\ timer_at (dnl_sweep s) = timer_at s.
@@ -1264,36 +1326,36 @@ Proof.
   apply H.
 Qed.
 
-Theorem step_ginv : forall s o L, 0 <= L -> life_ok L o -> g_inv s L -> g_inv (fst (step s o)) L.
+Theorem step_ginv : forall s o (bd : key -> Z), g_inv s bd -> g_inv (fst (step s o)) (bd_step s bd o).
 Proof.
-  intros s o L HL Hlo G. pose proof G as [P ND OK].
+  intros s o bd G. pose proof G as [P ND OK].
   destruct o as [d|c|n w f|n cbp mbf|face n cbp mbf nonce life sent|n w f tok| |]; simpl.
   - (* time passes *)
     split.
     + apply (pinv_same s _ P); try reflexivity. destruct (pi_cs s P). split; assumption.
     + exact ND.
-    + intros e He. change (E (set_now s (now s + Z.of_N d))) with (E s) in He. destruct (OK e He) as [Q1 [Q2 [B1 [[B2 B2'] B3]]]].
-      split; [exact Q1|]. split; [exact Q2|]. unfold bounds_ok, rec_bounded. simpl.
-      split; [lia|]. split; [split; intros x Hx; [specialize (B2 x Hx)|specialize (B2' x Hx)]; lia|]. intros Z1 Z2. specialize (B3 Z1 Z2). lia.
-  - apply (g_inv_same s _ L G); try reflexivity; [|exact ND]. apply (pinv_same s _ P); try reflexivity.
+    + intros e He. change (E (set_now s (now s + Z.of_N d))) with (E s) in He. destruct (OK e He) as [Q1 [Q2 [B1 [B2 B3]]]].
+      split; [exact Q1|]. split; [exact Q2|]. unfold bounds_ok. simpl.
+      split; [lia|]. split; [exact B2|]. intros Z1 Z2. specialize (B3 Z1 Z2). lia.
+  - apply (g_inv_same s _ bd G); try reflexivity; [|exact ND]. apply (pinv_same s _ P); try reflexivity.
     destruct (pi_cs s P). split; assumption.
   - apply insert_data_ginv. exact G.
   - destruct (find_cs s n cbp mbf) as [s' c] eqn:Ef.
     pose proof (ur_find_cs s [] 0%N n cbp mbf P) as U. rewrite Ef in U. simpl in U. simpl.
-    apply (g_inv_same s s' L G); [apply (ur_p _ _ _ _ _ U)|apply (ur_nd _ _ _ _ _ U); exact ND| | |apply (ur_now _ _ _ _ _ U)].
+    apply (g_inv_same s s' bd G); [apply (ur_p _ _ _ _ _ U)|apply (ur_nd _ _ _ _ _ U); exact ND| | |apply (ur_now _ _ _ _ _ U)].
     + rewrite (ur_E _ _ _ _ _ U). apply touch_idmap.
     + pose proof (find_cs_shape s n cbp mbf) as [_ S]. rewrite Ef in S. apply (ps_heap _ _ S).
-  - pose proof (process_interest_ginv s face n cbp mbf nonce life sent L HL Hlo G) as H.
+  - pose proof (process_interest_ginv s face n cbp mbf nonce life sent bd G) as H.
     destruct (process_interest s face n cbp mbf nonce life sent) as [[s' k] c]. exact H.
   - apply process_data_ginv; assumption.
-  - destruct (pit_update_spec s L G) as [G' _]. exact G'.
+  - destruct (pit_update_spec s bd G) as [G' _]. exact G'.
   - destruct (dnl_sweep_fields s) as [A1 [A2 [A3 [A4 [A5 [A6 A7]]]]]].
-    apply (g_inv_same s _ L G); [|rewrite A1; exact ND|unfold E; rewrite A1; reflexivity|exact A2|exact A3].
+    apply (g_inv_same s _ bd G); [|rewrite A1; exact ND|unfold E; rewrite A1; reflexivity|exact A2|exact A3].
     apply (pinv_same s _ P); try assumption.
     eapply frame_inv; [apply (pi_cs s P)|apply fr_dnl_sweep; apply (ci_tree _ (pi_cs s P))].
 Qed.
 
-Lemma init_ginv : forall t0 c sv ad life L, g_inv (init t0 c sv ad life) L.
+Lemma init_ginv : forall t0 c sv ad life (bd : key -> Z), g_inv (init t0 c sv ad life) bd.
 Proof.
   intros. split.
   - split.
@@ -1305,15 +1367,29 @@ Proof.
     + constructor.
     + intro id. simpl. tauto.
     + reflexivity.
-    + intros id []. 
+    + intros id [].
   - intros p Hp H. simpl in Hp. destruct Hp as [<-|[]]. congruence.
   - intros e [].
 Qed.
 
-Theorem run_ginv : forall ops s L, 0 <= L -> Forall (life_ok L) ops -> g_inv s L -> g_inv (run s ops) L.
+(* keys without an entry carry no deadline (reset to now), so that a deadline is "the latest arrival + lifetime among the
+   Interests received for the key since its entry came into existence" *)
+Definition has_key (s : st) (k : key) : bool := existsb (fun e => pkey_eqb (key_of e) k) (E s).
+Definition tighten (s : st) (bd : key -> Z) : key -> Z := fun k => if has_key s k then bd k else now s.
+
+Lemma g_inv_tighten : forall s bd, g_inv s bd -> g_inv s (tighten s bd).
 Proof.
-  induction ops as [|o t IH]; intros s L HL HF G; [exact G|]. inversion HF; subst. unfold run. simpl. apply IH; [exact HL|assumption|].
-  apply step_ginv; assumption.
+  intros s bd [P ND OK]. split; [exact P|exact ND|]. intros e He. unfold ok_entry, tighten.
+  replace (has_key s (key_of e)) with true; [apply OK; exact He|]. symmetry. apply existsb_exists. exists e. split; [exact He|apply pkey_eqb_refl].
+Qed.
+
+Definition dl_step (s : st) (bd : key -> Z) (o : op) : key -> Z := tighten (fst (step s o)) (bd_step s bd o).
+Fixpoint dl_run (s : st) (bd : key -> Z) (ops : list op) : key -> Z :=
+  match ops with [] => bd | o :: t => dl_run (fst (step s o)) (dl_step s bd o) t end.
+
+Theorem run_ginv : forall ops s bd, g_inv s bd -> g_inv (run s ops) (dl_run s bd ops).
+Proof.
+  induction ops as [|o t IH]; intros s bd G; [exact G|]. unfold run. simpl. apply IH. apply g_inv_tighten. apply step_ginv. exact G.
 Qed.
 
 (* ---- what the invariant gives ---- *)
@@ -1327,7 +1403,7 @@ Proof.
 Qed.
 
 (* all lifetimes elapsed: the reaper empties the PIT, its token map and its queue *)
-Theorem pit_drains : forall s L, g_inv s L -> (forall e, In e (E s) -> p_exp e <= now s) ->
+Theorem pit_drains : forall s (L : key -> Z), g_inv s L -> (forall e, In e (E s) -> p_exp e <= now s) ->
   let s' := pit_update s in E s' = [] /\ npit s' = 0 /\ tokmap s' = [] /\ heap s' = [].
 Proof.
   intros s L G Hall. destruct (pit_update_spec s L G) as [G' [Hsub _]]. cbv zeta.
@@ -1337,16 +1413,8 @@ Proof.
   split; [exact HE|]. apply pit_empty_all; [apply (g_p _ _ G')|exact HE].
 Qed.
 
-(* L after the last Interest or Data every entry is due *)
-Lemma all_due_after : forall s L d, g_inv s L -> L <= Z.of_N d ->
-  forall e, In e (E (set_now s (now s + Z.of_N d))) -> p_exp e <= now (set_now s (now s + Z.of_N d)).
-Proof.
-  intros s L d G Hd e He. change (E (set_now s (now s + Z.of_N d))) with (E s) in He.
-  destruct (g_ok _ _ G e He) as [_ [_ [B1 _]]]. simpl. lia.
-Qed.
-
 (* tree = prefix closure of the names with a PIT entry or a cached packet; with an empty PIT: of the cached names *)
-Lemma tree_closure : forall s L, g_inv s L ->
+Lemma tree_closure : forall s (L : key -> Z), g_inv s L ->
   tree_ok (nodes s) /\
   (forall p, In p (paths (nodes s)) -> p <> [] -> exists q, is_prefix p q = true /\ (pit_at (nodes s) q <> [] \/ cs_at (nodes s) q <> None)) /\
   (forall q p, (pit_at (nodes s) q <> [] \/ cs_at (nodes s) q <> None) -> is_prefix p q = true -> In p (paths (nodes s))).
